@@ -2,7 +2,8 @@
    Statements only; proofs are in Proofs/ZoneText*.v.  Model: Model/ZoneTextM.v. *)
 From DV Require Import Base.Prelude Model.NameM Model.ZoneTextM.
 From DV Require Import Proofs.ZoneTextBase Proofs.ZoneTextInv Proofs.ZoneTextRespell Proofs.ZoneTextLex
-  Proofs.ZoneTextAcc Proofs.ZoneTextRecord Proofs.ZoneTextSweep Proofs.ZoneTextRoundtrip Proofs.ZoneTextNames.
+  Proofs.ZoneTextAcc Proofs.ZoneTextRecord Proofs.ZoneTextSweep Proofs.ZoneTextRoundtrip Proofs.ZoneTextNames
+  Proofs.ZoneTextParens.
 From DV Require Import Proofs.NameValid Proofs.NameText.
 From Coq Require Import Permutation.
 Open Scope Z_scope.
@@ -124,6 +125,27 @@ Theorem respell_owner : forall c s co ov n t toks lerr,
 Proof. exact respell_owner_proof. Qed.
 Print Assumptions respell_owner.
 
+(* Parenthesised multi-line versus single-line records (and any other re-layout of a logical
+   line): two layouts with the same tokens - blanks, tabs, parentheses with embedded newlines,
+   comments - are read alike, at the level of the character stream, for every reader state and
+   whatever follows. *)
+Theorem respell_layout : forall c s ps ps' rest f,
+  mvalid 0 ps = true -> mvalid 0 ps' = true ->
+  mtoks ps = mtoks ps' ->
+  starts_ws (mrender ps ++ [10]) = starts_ws (mrender ps' ++ [10]) ->
+  read_loop (S f) c s (mrender ps ++ 10 :: rest) = read_loop (S f) c s (mrender ps' ++ 10 :: rest).
+Proof. exact respell_layout_proof. Qed.
+Print Assumptions respell_layout.
+
+Theorem respell_parens : forall c s ts ps rest f,
+  forallb tok_clean ts = true ->
+  mvalid 0 ps = true -> mtoks ps = ts ->
+  starts_ws (mrender ps ++ [10]) = starts_ws (mrender (single_line ts) ++ [10]) ->
+  read_loop (S f) c s (mrender ps ++ 10 :: rest) =
+  read_loop (S f) c s (mrender (single_line ts) ++ 10 :: rest).
+Proof. exact respell_parens_proof. Qed.
+Print Assumptions respell_parens.
+
 (* ---------- non-vacuity: the hypotheses are satisfiable, the model really loads zones ---------- *)
 Definition ex_origin : name := [[101; 120]; []].   (* "ex." *)
 Definition ex_cfg := mkcfg (Some ex_origin) true 1 true.
@@ -210,3 +232,14 @@ Proof.
   exists (match zone_text rt_style (mkpz (Some ex_origin) true 1 rt_nodes) with Ok t => t | _ => [] end).
   split; vm_compute; reflexivity.
 Qed.
+
+(* non-vacuity of respell_parens:  www 300 (\n  IN\tA; c\n1.2.3.4 ) ;x   versus   www 300 IN A 1.2.3.4 *)
+Definition pr_ts : list tok :=
+  [TId [119;119;119]; TId [51;48;48]; TId [73;78]; TId [65]; TId [49;46;50;46;51;46;52]].
+Definition pr_ps : list mpiece :=
+  [MTk (TId [119;119;119]); MSp 1; MTk (TId [51;48;48]); MSp 1; MOpen; MNl; MSp 2; MTk (TId [73;78]); MTab;
+   MTk (TId [65]); MComNl [32; 99]; MTk (TId [49;46;50;46;51;46;52]); MSp 1; MClose; MSp 1; MComEnd [120]].
+Example pr_hyps :
+  forallb tok_clean pr_ts = true /\ mvalid 0 pr_ps = true /\ mtoks pr_ps = pr_ts /\
+  starts_ws (mrender pr_ps ++ [10]) = starts_ws (mrender (single_line pr_ts) ++ [10]).
+Proof. repeat split; reflexivity. Qed.
